@@ -20,6 +20,7 @@ import SwcVerif.Model.AlgoRunSort
 import SwcVerif.Model.AlgoRunSubtree
 import SwcVerif.Model.AlgoRunPopulation
 import SwcVerif.Model.AlgoRunNormalizer
+import SwcVerif.Model.AlgoRunBranches
 import SwcVerif.Model.Assemble
 
 def dispatch (op : String) (args : List String) : String :=
@@ -52,6 +53,7 @@ def dispatch (op : String) (args : List String) : String :=
   | "gbifurcate" => AlgoRun.handleBifurcate args
   | "gsomas" => AlgoRun.handleSomas args
   | "greset" => AlgoRun.handleReset args
+  | "gbranches" | "gpaths" | "gfurcs" => AlgoRun.handleBranches op args
   | "gtrav" => AlgoRun.handleTrav args
   | "gsort" => AlgoRun.handleSort args
   | "gsubtopo" => AlgoRun.handleSubTopo args
